@@ -6,12 +6,14 @@ CONSTANTS
   XtModes = {"cell", "none"}
   IoPx = {TRUE, FALSE}
   Ops = {"cell"}
+  Faults = {}
   Variant = "code"
 INVARIANT TypeOK
 INVARIANT CellFresh
 INVARIANT RatioFresh
 INVARIANT FixedSnapshot
 INVARIANT MemoFresh
+INVARIANT FaultFresh
 INVARIANT BodyOnce
 VIEW View
 CHECK_DEADLOCK FALSE
